@@ -122,6 +122,9 @@ fn main() {
         i += 1;
     }
     mayverif::install_panic_hook();
+    // `name@ns` is the scenario `name` run by the build variant without work stealing (the
+    // driver picks the binary; the suffix stays in the recorded argv so that a replay finds it)
+    let scenario = scenario.trim_end_matches("@ns").to_string();
     mayverif::scen::run(&scenario, seed, move |c: &mut Cfg| {
         if let Some(s) = strategy.clone() {
             c.strategy = s;
